@@ -5,6 +5,8 @@ import math
 from fractions import Fraction
 
 PROP = "C18"
+# kernels regenerated from /repo's source (tools/py2lean.py) vs the hand model, exhaustive small scope, inside Lean
+TWIN_CHECKS = [{"op": "twin.sparse_exhaustive", "k": 4}]
 RULE = ("kind 'dist': triples (x, y, z) of non-negative vectors, dimension 1..64, each = integer base vector "
         "(dense / sparse / single-entry) times a scale in [1e-3, 1e3]; >= 30 % of the pairs (x, y) are proportional "
         "(same base, different scale), others have disjoint supports, nested supports or are independent; every "
